@@ -16,7 +16,7 @@ Nothing of /repo is imported or executed.
 """
 import ast
 
-from ..index import AnalysisError, walk_own, short, unparse, parent
+from ..index import AnalysisError, walk_own, short, unparse, parent, local_names as _local_names
 from ..cfg import cfg_of
 from .. import nf, lib
 from ..selftest import Mutant, Benign
@@ -169,15 +169,18 @@ def var(name):
 
 
 class World(dict):
-    """k (even_odd), L / U (class of each limit), rel (order of two finite limits), Codd (parity of the cutoff)."""
+    """k (even_odd), L / U (class of each limit), rel (order of two finite limits), Cres (residue of the cutoff), M (modulus
+    of the residue classes: the lcm of 2 and every constant modulus used by the code)."""
 
     def cls(self, v):
         return self['L'] if v == 'lower' else self['U']
 
+    def residue(self, v, m):
+        r = self['Cres'] if v == 'infty_val' else self.cls(v)['res']
+        return r % m
+
     def parity(self, v):
-        if v == 'infty_val':
-            return 1 if self['Codd'] else 0
-        return 1 if self.cls(v)['odd'] else 0
+        return self.residue(v, 2)
 
 
 class Abstract(object):
@@ -248,8 +251,9 @@ class Abstract(object):
                 return Val(coef={k: c / b.const for k, c in a.coef.items()}, const=a.const / b.const)
             if isinstance(e.op, ast.FloorDiv) and not b.coef and b.const > 0:
                 return self.rounded(Val(coef={k: c / b.const for k, c in a.coef.items()}, const=a.const / b.const), floor=True)
-            if isinstance(e.op, ast.Mod) and b == Val(const=2):
-                p = self.parity_of(a)
+            if isinstance(e.op, ast.Mod) and not b.coef and b.const.denominator == 1 and b.const >= 2 \
+                    and self.w['M'] % int(b.const) == 0:
+                p = self.residue_of(a, int(b.const))
                 return None if p is None else Val(const=p)
             return None
         if isinstance(e, ast.Call) and isinstance(e.func, ast.Name) and not e.keywords:
@@ -266,6 +270,12 @@ class Abstract(object):
                     return Val(const=abs(v.const))
                 if v is not None and v.inf:
                     return Val(inf=1)
+                if v is not None:
+                    if len(v.coef) == 1 and list(v.coef)[0] in ('lower', 'upper') and self.w.cls(list(v.coef)[0]).get('sgn') == 'zero':
+                        return Val(const=abs(v.const))
+                    sg = self.sign(v)
+                    if sg is not None:
+                        return v if sg > 0 else Val(coef={k: -c for k, c in v.coef.items()}, const=-v.const)
                 return None
             if e.func.id in ('max', 'min') and len(e.args) == 2:
                 a, b = self.value(e.args[0]), self.value(e.args[1])
@@ -281,10 +291,13 @@ class Abstract(object):
     def integral(self, v):
         return all(c.denominator == 1 for c in v.coef.values()) and v.const.denominator == 1
 
-    def parity_of(self, v):
+    def residue_of(self, v, m):
         if v is None or v.inf or not self.integral(v):
             return None
-        return int(sum(int(c) * self.w.parity(k) for k, c in v.coef.items()) + int(v.const)) % 2
+        return int(sum(int(c) * self.w.residue(k, m) for k, c in v.coef.items()) + int(v.const)) % m
+
+    def parity_of(self, v):
+        return self.residue_of(v, 2)
 
     def rounded(self, v, floor):
         """int() / floor of an affine form whose value is an integer or a half-integer of known sign."""
@@ -310,12 +323,20 @@ class Abstract(object):
         if len(v.coef) != 1:
             return None
         (name, c), = v.coef.items()
+        M = self.w['M']
         if name == 'infty_val':
-            first, direction = (1 if self.w['Codd'] else 2), 1
+            first, direction = (self.w['Cres'] or M), 1
         else:
             cl = self.w.cls(name)
-            first = ((-1 if cl['odd'] else -2) if cl['neg'] else (1 if cl['odd'] else 0))
-            direction = -1 if cl['neg'] else 1
+            sg = cl.get('sgn')
+            if sg == 'zero':
+                first, direction = 0, 0
+            elif sg == 'neg':
+                first, direction = cl['res'] - M, -1
+            elif sg == 'pos':
+                first, direction = (cl['res'] or M), 1
+            else:
+                first, direction = cl['res'], 1            # non-negative (sign not tracked)
         at_first = c * first + v.const
         grows = c * direction                      # moving away from zero changes the value by multiples of this sign
         if at_first > 0 and grows >= 0:
@@ -357,6 +378,15 @@ class Abstract(object):
                 return 1
             if rel < 0 and const < 1:
                 return -1
+            return None
+        if len(coef) == 1:
+            d = Val(coef=coef, const=const)
+            (name, c), = coef.items()
+            if name in ('lower', 'upper') and w.cls(name).get('sgn') == 'zero':
+                return (const > 0) - (const < 0)
+            sgn = self.sign(d)
+            if sgn is not None:
+                return sgn
             return None
         if const == 0 and len(coef) == 2 and 'infty_val' in coef and abs(coef['infty_val']) == 1:
             (name, c), = [(k, v) for k, v in coef.items() if k != 'infty_val']
@@ -414,14 +444,15 @@ def _summation_guards():
     return g
 
 
-def _classes(need_sign, need_beyond, which):
+def _classes(need_sign, need_beyond, which, M=2):
     out = [{'inf': -1}, {'inf': 1}]
-    for odd in (False, True):
-        for neg in ((False, True) if need_sign or need_beyond else (False,)):
-            base = {'inf': 0, 'odd': odd, 'neg': neg}
+    for res in range(M):
+        signs = (('neg', 'pos') + (('zero',) if res == 0 else ())) if (need_sign or need_beyond) else (None,)
+        for sg in signs:
+            base = {'inf': 0, 'res': res, 'odd': bool(res % 2), 'neg': sg == 'neg', 'sgn': sg}
             out.append(dict(base))
-            if need_beyond:
-                out.append(dict(base, pos='below' if neg else 'above'))
+            if need_beyond and sg in ('neg', 'pos'):
+                out.append(dict(base, pos='below' if sg == 'neg' else 'above'))
     return out
 
 
@@ -477,21 +508,31 @@ def d1_summation(ctx, idx):
             'finite': 'perform_summation: finite limits are used as given (also beyond the cutoff)',
         }
         stats = {k: {'n': 0, 'bad': []} for k in names}
-        for L in _classes(need_sign, need_beyond, 'L'):
-            for U in _classes(need_sign, need_beyond, 'U'):
+        need_sign = need_sign or any(isinstance(n, ast.BinOp) and isinstance(n.op, ast.Mult) for n in ast.walk(fn))
+        M = 2
+        for n in ast.walk(fn):
+            if isinstance(n, ast.BinOp) and isinstance(n.op, ast.Mod) and isinstance(n.right, ast.Constant) \
+                    and isinstance(n.right.value, int) and 2 <= n.right.value <= 12:
+                import math
+                M = M * n.right.value // math.gcd(M, n.right.value)
+        ORDER = {'neg': 0, 'zero': 1, 'pos': 2}
+        for L in _classes(need_sign, need_beyond, 'L', M):
+            for U in _classes(need_sign, need_beyond, 'U', M):
                 rels = ('lt', 'eq', 'gt') if not L['inf'] and not U['inf'] else ('lt',)
                 for rel in rels:
                     if rel == 'eq' and (L != U):
                         continue
-                    if not L['inf'] and not U['inf'] and L.get('neg') != U.get('neg') and (need_sign or need_beyond):
-                        if (rel == 'lt') != bool(L.get('neg')) or rel == 'eq':
+                    if not L['inf'] and not U['inf'] and L.get('sgn') and L['sgn'] != U['sgn']:
+                        if rel == 'eq' or (rel == 'lt') != (ORDER[L['sgn']] < ORDER[U['sgn']]):
                             continue
+                    if not L['inf'] and not U['inf'] and L.get('sgn') == 'zero' and U.get('sgn') == 'zero' and rel != 'eq':
+                        continue
                     if not L['inf'] and not U['inf'] and L.get('pos') and U.get('pos') and L['pos'] != U['pos'] and \
                             (rel == 'lt') != (L['pos'] == 'below'):
                         continue
-                    for Codd in (False, True):
+                    for Cres in range(M):
                         for k in (0, 1, 2):
-                            w = World(L=L, U=U, rel=rel, Codd=Codd, k=k)
+                            w = World(L=L, U=U, rel=rel, Cres=Cres, Codd=bool(Cres % 2), M=M, k=k)
                             _judge_world(w, compiled, guards, stats, fi)
         for key, label in names.items():
             st = stats[key]
@@ -511,10 +552,12 @@ def _limit_text(name, c):
     if c['inf']:
         return '%s = %sinf' % (name, '-' if c['inf'] < 0 else '+')
     bits = ['odd' if c['odd'] else 'even']
-    if c.get('neg') is not None and ('neg' in c):
-        bits.insert(0, 'negative' if c['neg'] else 'non-negative')
+    if c.get('sgn'):
+        bits.insert(0, {'neg': 'negative', 'zero': 'zero', 'pos': 'positive'}[c['sgn']])
     if c.get('pos'):
         bits.append('%s the cutoff range' % c['pos'])
+    if c.get('res') is not None and c['res'] > 1:
+        bits.append('residue %d' % c['res'])
     return '%s finite (%s)' % (name, ', '.join(bits))
 
 
@@ -839,6 +882,12 @@ def _cutoff(r, fi, ps, F):
                     sl = sl.body if guards.compile(nf.canon(sl.test))(w) else sl.orelse
                 v = ast.Subscript(value=v.value, slice=sl, ctx=ast.Load())
             vals.append(v)
+        unbound = [v for v in vals if isinstance(v, ast.Name) and v.id in _local_names(fn) and v.id not in fi.params]
+        if unbound and len(unbound) == len(vals):
+            r.violation(construct, "when the used functions are %s the cutoff variable `%s` is never assigned on the path that reaches "
+                        "perform_summation (UnboundLocalError: the student sees the generic 'could not check input' error instead of a grade)"
+                        % (sorted(used), unbound[0].id), lib.loc(fi, ps), expected="config['infty_val_fact' / 'infty_val']")
+            return
         keys = {nf.config_key(v) if v is not None else None for v in vals}
         if len(keys) != 1 or None in keys:
             raise AnalysisError('evaluate_sum: the cutoff handed to perform_summation is not recognised (%s)'
@@ -1176,7 +1225,7 @@ def _compare_roles(r, idx):
 # ----------------------------------------------------------------------------- D4
 def d4_order(ctx, idx):
     r = ctx.rule('D4.ORDER', 'check(): count check (ConfigError) < blank fields (MissingInput) < dummy-variable validation '
-                 '(InvalidInput) < check_math_response; normal forms of the helper predicates', floor=23)
+                 '(InvalidInput) < check_math_response; normal forms of the helper predicates', floor=24)
     with r:
         fi = idx.func(SB + '.check')
         fn = fi.node
@@ -1272,6 +1321,20 @@ def d4_order(ctx, idx):
                         'blank loop dominates validate_user_dummy_variable',
                         "validate_user_dummy_variable runs before the blank-field check: a blank variable name makes is_valid_variable_name "
                         "fail with IndexError (front[0] of '') instead of MissingInput", lib.loc(fi, c3))
+        # the error translation around the computation must not swallow the error
+        tr = lib.enclosing_try(c4)
+        if tr is not None:
+            for h in tr.handlers:
+                ok, classes = X.body_raises(h.body)
+                names_ = lib.handler_class_names(h)
+                if ok:
+                    r.ok('check: errors of the computation are re-raised (except %s)' % '/'.join(names_), 'raises %s' % sorted(classes), lib.loc(fi, h))
+                elif not any(isinstance(x, ast.Return) and x.value is not None for s_ in h.body for x in ast.walk(s_)):
+                    r.violation('check: errors of the computation are re-raised (except %s)' % '/'.join(names_),
+                                'a path through the handler neither raises nor returns a result: the error is swallowed and check() returns '
+                                'None instead of a grading result', lib.loc(fi, h), expected='raise %s(...)' % names_[0])
+                else:
+                    r.undecided('check: errors of the computation are re-raised (except %s)' % '/'.join(names_), 'handler returns a value', lib.loc(fi, h))
         _helpers(r, idx)
 
 
@@ -1500,6 +1563,9 @@ MUTANTS = [
     Mutant('swap-inverted', IG, "        if lower > upper:\n            lower, upper = upper, lower\n", "        if lower < upper:\n            lower, upper = upper, lower\n", 'D1'),
     Mutant('parity-odd-test', IG, "            if abs(lower % 2) != 1:", "            if abs(lower % 2) != 0:", 'D1'),
     Mutant('parity-even-step-back', IG, "            if abs(lower % 2) != 0:\n                lower += 1", "            if abs(lower % 2) != 0:\n                lower -= 1", 'D1'),
+    Mutant('parity-modulus-three', IG, "            if abs(lower % 2) != 1:", "            if abs(lower % 3) != 1:", 'D1'),
+    Mutant('parity-even-modulus-three', IG, "            if abs(lower % 2) != 0:", "            if abs(lower % 3) != 0:", 'D1'),
+    Mutant('parity-product-instead-of-remainder', IG, "            if abs(lower % 2) != 0:", "            if abs(lower * 2) != 0:", 'D1'),
     Mutant('odd-step-one', IG, "            # Odd numbers only\n            delta = 2", "            # Odd numbers only\n            delta = 1", 'D1'),
     Mutant('minus-inf-sign', IG, "            lower = -infty_val", "            lower = infty_val", 'D1'),
     Mutant('plus-inf-not-replaced', IG, "        if upper == float('inf'):\n            upper = infty_val\n", "", 'D1'),
@@ -1513,6 +1579,7 @@ MUTANTS = [
     Mutant('parity-closed-form-truncating', IG, "            if abs(lower % 2) != 1:\n                lower += 1", "            lower = 2 * int(lower / 2) + 1", 'D1'),
     Mutant('evaluations-filtered', IG, "evals = [eval_summand(n) for n in range(int(lower), int(upper + 1), delta)]",
            "evals = [eval_summand(n) for n in range(int(lower), int(upper + 1), delta) if n]", 'D1'),
+    Mutant('fact-cutoff-never-assigned', IG, "            infty_val = self.config['infty_val_fact']\n", "            pass\n", 'D2'),
     Mutant('always-fact-cutoff', IG, "            infty_val = self.config['infty_val']", "            infty_val = self.config['infty_val_fact']", 'D2'),
     Mutant('factorial-alias-forgotten', IG, "        if 'fact' in used_funcs or 'factorial' in used_funcs:", "        if 'fact' in used_funcs:", 'D2'),
     Mutant('cutoffs-exchanged', IG, "        if 'fact' in used_funcs or 'factorial' in used_funcs:", "        if not ('fact' in used_funcs or 'factorial' in used_funcs):", 'D2'),
@@ -1543,6 +1610,7 @@ MUTANTS = [
            "instructor_eval=expected_eval)\n\n        return student_evals, instructor_evals, used_funcs", 'D3'),
     Mutant('author-value-overwritten', IG, "            instructor_evals.append(expected_eval)", "            instructor_evals.append(student_eval)", 'D3'),
     Mutant('comparison-roles-exchanged', IG, "self.compare_evaluations(instructor_evals, student_evals,", "self.compare_evaluations(student_evals, instructor_evals,", 'D3'),
+    Mutant('integration-error-swallowed', IG, "            raise IntegrationError(msg.format(self.wording['noun'], str(error)))", "            pass", 'D4'),
     Mutant('blank-test-never-true', IG, "            if structured_input[key] == '':", "            if structured_input[key] is None:", 'D4'),
     Mutant('dummy-validation-dropped', IG, "        self.validate_user_dummy_variable(structured_input[self.wording['adjective'] + '_variable'])\n", "", 'D4'),
     Mutant('blank-check-after-dummy-validation', IG,
